@@ -357,33 +357,70 @@ pub enum TestFunction {
 
 impl TestFunction {
     pub fn try_new(name: &str, args: Vec<FnArg>) -> Parsed<Self> {
-        fn with_node_type_validation<'a>(
-            a: &'a FnArg,
-            name: &str,
-        ) -> Result<&'a FnArg, JsonPathError> {
-            if a.is_lit() {
+        fn is_singular(segments: &[Segment]) -> bool {
+            segments.iter().all(|s| {
+                matches!(
+                    s,
+                    Segment::Selector(Selector::Name(_)) | Segment::Selector(Selector::Index(_))
+                )
+            })
+        }
+        // RFC 9535 2.4.3: an argument for a ValueType parameter is a literal,
+        // a singular query or a function expression with a ValueType result
+        fn value_type<'a>(a: &'a FnArg, name: &str) -> Result<&'a FnArg, JsonPathError> {
+            let ok = match a {
+                FnArg::Literal(_) => true,
+                FnArg::Test(t) => match t.as_ref() {
+                    Test::RelQuery(segments) => is_singular(segments),
+                    Test::AbsQuery(q) => is_singular(&q.segments),
+                    Test::Function(f) => f.is_comparable(),
+                },
+                FnArg::Filter(_) => false,
+            };
+            if ok {
+                Ok(a)
+            } else {
                 Err(JsonPathError::InvalidJsonPath(format!(
+                    "Invalid argument for the function `{}`: expected a value (a literal, a singular query or a function returning a value)",
+                    name
+                )))
+            }
+        }
+        // ... and an argument for a NodesType parameter is a query
+        fn nodes_type<'a>(a: &'a FnArg, name: &str) -> Result<&'a FnArg, JsonPathError> {
+            match a {
+                FnArg::Test(t) if matches!(t.as_ref(), Test::RelQuery(_) | Test::AbsQuery(_)) => {
+                    Ok(a)
+                }
+                FnArg::Literal(_) => Err(JsonPathError::InvalidJsonPath(format!(
                     "Invalid argument for the function `{}`: expected a node, got a literal",
                     name
-                )))
-            } else if a.is_filter() {
-                Err(JsonPathError::InvalidJsonPath(format!(
+                ))),
+                FnArg::Filter(_) => Err(JsonPathError::InvalidJsonPath(format!(
                     "Invalid argument for the function `{}`: expected a node, got a filter",
                     name
-                )))
-            } else {
-                Ok(a)
+                ))),
+                _ => Err(JsonPathError::InvalidJsonPath(format!(
+                    "Invalid argument for the function `{}`: expected a node, got a function",
+                    name
+                ))),
             }
         }
 
         match (name, args.as_slice()) {
-            ("length", [a]) => Ok(TestFunction::Length(Box::new(a.clone()))),
-            ("value", [a]) => Ok(TestFunction::Value(a.clone())),
-            ("count", [a]) => Ok(TestFunction::Count(
-                with_node_type_validation(a, name)?.clone(),
+            ("length", [a]) => Ok(TestFunction::Length(Box::new(
+                value_type(a, name)?.clone(),
+            ))),
+            ("value", [a]) => Ok(TestFunction::Value(nodes_type(a, name)?.clone())),
+            ("count", [a]) => Ok(TestFunction::Count(nodes_type(a, name)?.clone())),
+            ("search", [a, b]) => Ok(TestFunction::Search(
+                value_type(a, name)?.clone(),
+                value_type(b, name)?.clone(),
             )),
-            ("search", [a, b]) => Ok(TestFunction::Search(a.clone(), b.clone())),
-            ("match", [a, b]) => Ok(TestFunction::Match(a.clone(), b.clone())),
+            ("match", [a, b]) => Ok(TestFunction::Match(
+                value_type(a, name)?.clone(),
+                value_type(b, name)?.clone(),
+            )),
             ("length" | "value" | "count" | "match" | "search", args) => {
                 Err(JsonPathError::InvalidJsonPath(format!(
                     "Invalid number of arguments for the function `{}`: got {}",
